@@ -32,3 +32,5 @@ macro_rules! ser_hash { ($($n:ident),* $(,)?) => { verus!{ $(
     }
 )* } } }
 ser_hash!(Ed25519KeyHash, ScriptHash);
+pub type SubCoin = UnitInterval;
+ser_opaque!(PlutusData);
